@@ -32,21 +32,23 @@ fn utrans_str(t: &UnimodularTransformation) -> String {
 /// Run the stages of `MoyoDataset::new` one by one on `cell` and emit one line per stage.
 pub fn dump_stages(w: &mut CaseWriter, tag: &str, cell: &Cell, symprec: f64, at: AngleTolerance, setting: Setting) {
     let c = cell.clone();
-    // S1: primitive cell
-    let prim = match catch(move || PrimitiveCell::new(&c, symprec)) {
+    // S1: primitive cell (the proposals of the float heuristics, recorded by the hooks, go into the request: s13.rs)
+    let (r1, ev1) = crate::s13::with_detail(move || catch(move || PrimitiveCell::new(&c, symprec)));
+    let s1req = format!("s1 {} ; {} ; symprec {} ; {}", tag, cell_segments("", cell), fx(symprec), crate::s13::h1_segments(&ev1));
+    let prim = match r1 {
         Ok(Ok(p)) => p,
         Ok(Err(e)) => {
-            w.case(&format!("s1 {} ; {} ; symprec {}", tag, cell_segments("", cell), fx(symprec)), &format!("err {}", err_name(&e)));
+            w.case(&s1req, &format!("err {}", err_name(&e)));
             return;
         }
         Err(m) => {
-            w.case(&format!("s1 {} ; {} ; symprec {}", tag, cell_segments("", cell), fx(symprec)), &format!("PANIC {}", m));
+            w.case(&s1req, &format!("PANIC {}", m));
             return;
         }
     };
     let trans: Vec<String> = prim.translations.iter().map(vec3s).collect();
     w.case(
-        &format!("s1 {} ; {} ; symprec {}", tag, cell_segments("", cell), fx(symprec)),
+        &s1req,
         &format!(
             "ok ; {} ; linear {} ; sitemap {} ; ntrans {} ; trans {} ; perms {}",
             cell_segments("p", &prim.cell),
@@ -57,21 +59,25 @@ pub fn dump_stages(w: &mut CaseWriter, tag: &str, cell: &Cell, symprec: f64, at:
             perms_str(&prim.permutations)
         ),
     );
+    // S2: Bravais group of the primitive (Minkowski-reduced) lattice
+    crate::s13::dump_s2(w, tag, &prim.cell.lattice, symprec, at);
     // S3: symmetry search in the primitive cell
     let pc = prim.cell.clone();
-    let search = match catch(move || PrimitiveSymmetrySearch::new(&pc, symprec, at)) {
+    let (r3, ev3) = crate::s13::with_detail(move || catch(move || PrimitiveSymmetrySearch::new(&pc, symprec, at)));
+    let s3req = format!("s3 {} ; {} ; symprec {} ; angtol {} ; {}", tag, cell_segments("", &prim.cell), fx(symprec), angtol_str(at), crate::s13::h3_segments(&ev3));
+    let search = match r3 {
         Ok(Ok(s)) => s,
         Ok(Err(e)) => {
-            w.case(&format!("s3 {} ; {} ; symprec {} ; angtol {}", tag, cell_segments("", &prim.cell), fx(symprec), angtol_str(at)), &format!("err {}", err_name(&e)));
+            w.case(&s3req, &format!("err {}", err_name(&e)));
             return;
         }
         Err(m) => {
-            w.case(&format!("s3 {} ; {} ; symprec {} ; angtol {}", tag, cell_segments("", &prim.cell), fx(symprec), angtol_str(at)), &format!("PANIC {}", m));
+            w.case(&s3req, &format!("PANIC {}", m));
             return;
         }
     };
     w.case(
-        &format!("s3 {} ; {} ; symprec {} ; angtol {}", tag, cell_segments("", &prim.cell), fx(symprec), angtol_str(at)),
+        &s3req,
         &format!("ok ; nops {} ; ops {} ; perms {}", search.operations.len(), ops_str(&search.operations), perms_str(&search.permutations)),
     );
     // S4: operations in the input cell
@@ -179,5 +185,7 @@ pub fn gen(tier: &str, seed: u64, out: &str) {
         }
         dump_stages(&mut w, &format!("h{}k{}", h, k), &c.cell, sp, at, st);
     }
+    // extra S1-S3 lines on inputs the acceptance logic has to refuse (s13.rs)
+    crate::s13::stress(&mut w, &mut rng.fork(), tier);
     w.finish();
 }
